@@ -397,7 +397,8 @@ pub fn public_events(tz_value: &str, m: &Model, q: &Queries) -> Vec<Value> {
             let Some(nd) = naive(w) else { continue };
             out.push(ev("plocal", json!({"L": pair(w), "cand": m.cand(w)}), || json!({"r": mapped_local(Local.from_local_datetime(&nd))})));
             let mid = w - w.rem_euclid(86_400);
-            if let Some(md) = naive(mid) { #[allow(deprecated)]
+            // (a Date needs no representable instant, so the two routes differ legitimately on the first and last days of the range)
+            if let Some(md) = naive(mid).filter(|_| mid.abs() < 8_000_000_000_000) { #[allow(deprecated)]
                 out.push(ev("plocal", json!({"L": pair(mid), "cand": m.cand(mid), "via": "from_local_date"}), || json!({"r": mapped_date(mid, Local.from_local_date(&md.date()))}))); }
         }
         for &t in &q.trips {
@@ -614,7 +615,7 @@ fn rule_public_events(tz_value: &str, q: &Queries) -> Vec<Value> {
             let Some(nd) = naive(w) else { continue };
             out.push(ev("prlocal", json!({"L": pair(w)}), || json!({"r": mapped_local(Local.from_local_datetime(&nd))})));
             let mid = w - w.rem_euclid(86_400);
-            if let Some(md) = naive(mid) { #[allow(deprecated)]
+            if let Some(md) = naive(mid).filter(|_| mid.abs() < 8_000_000_000_000) { #[allow(deprecated)]
                 out.push(ev("prlocal", json!({"L": pair(mid), "via": "from_local_date"}), || json!({"r": mapped_date(mid, Local.from_local_date(&md.date()))}))); }
         }
         for &t in &q.trips {
